@@ -148,12 +148,17 @@ def run(ctx):
     ctx.assumptions += ["next-token weights are positive integers over D (no zero-probability tokens)",
                         "the language model's scores depend on the whole path through threaded state (TableLM)"]
     cases = {}
+    steps = {}
     for cfg in (("BeamSearch_quick.cfg" if ctx.quick else "BeamSearch_thorough.cfg"), "BeamSearch_ties.cfg"):
         res = tlc.run(MOD, os.path.join(SPECS, cfg), workers=16, timeout=3000)
         tlc.require_ok(res, "BeamSearch/" + cfg)
         tlc.require_covered(res, ["Extend", "Stop"], "BeamSearch/" + cfg)
         ctx.add_tlc("BeamSearch/" + cfg, res)
         for r in res.records:
+            if r.get("kind") == "step":
+                skey = (r["V"], r["tv"], r["eos"], r["width"], r["t"], tuple(sorted((tuple(e["y"]), e["num"]) for e in r["prev"])))
+                steps.setdefault(skey, []).append(r)
+                continue
             key = (r["V"], r["tv"], r["eos"], bool(r["fa"]), r["mi"], r["width"])
             cases.setdefault(key, []).append(r)
     if not cases:
@@ -180,14 +185,96 @@ def run(ctx):
                 ks = [ctx.rng.choice(keys) for _ in range(ctx.rng.choice((2, 3)))]
                 run_call(ctx, cases, ks, "batch")
                 ctx.case(n=len(ks))
+    replay_steps(ctx, steps)
     if not ctx.samples:
         k = sorted(cases)[len(cases) // 2]
         ctx.samples.append(dict(V=k[0], table_variant=k[1], eos=k[2], finish_all=k[3], max_iters=k[4], width=k[5]))
 
 
+def replay_steps(ctx, steps):
+    """spec -> code for single Extend transitions: functional.beam_search_advance on the spec's previous beam
+    (slots in a seeded order, finished paths given the module's eos treatment) must produce one of the spec's
+    successor beams of exactly that previous beam."""
+    from pydrobert.torch import functional as F
+
+    for skey in sorted(steps):
+        V, tv, eos, width, t, prev = skey
+        D = 4 if V == 2 else 6
+        prev = list(prev)
+        ctx.rng.shuffle(prev)
+        Kp = len(prev)
+        S = max(len(p) for p, _ in prev)
+        use_lens = eos >= 0 or any(len(p) != S for p, _ in prev) or ctx.rng.random() < 0.5
+        y_prev = torch.zeros(S, 1, Kp, dtype=torch.long)
+        lens = torch.zeros(1, Kp, dtype=torch.long)
+        lp_prev = torch.zeros(1, Kp, dtype=torch.double)
+        lp_t = torch.zeros(1, Kp, V, dtype=torch.double)
+        for k, (p, num) in enumerate(prev):
+            for i, tok in enumerate(p):
+                y_prev[i, 0, k] = tok
+            for i in range(len(p), S):
+                y_prev[i, 0, k] = ctx.rng.randrange(V)  # garbage beyond the path's length
+            lens[0, k] = len(p)
+            lp_prev[0, k] = math.log(num) - len(p) * math.log(D)
+            fin = eos >= 0 and len(p) > 0 and p[-1] == eos
+            w = wt(V, tv, p)
+            for v in range(V):
+                if fin:
+                    lp_t[0, k, v] = 0.0 if v == eos else -math.inf
+                else:
+                    lp_t[0, k, v] = math.log(w[v]) - math.log(D)
+        case = dict(step=dict(V=V, tv=tv, eos=eos, width=width, t=t, prev=[[list(p), n] for p, n in prev], use_lens=use_lens))
+        try:
+            y, y_lens, lp, src = F.beam_search_advance(lp_t, width, lp_prev, y_prev, lens if use_lens else None)
+        except Exception as ex:
+            ctx.violation(dict(site="beam_search_advance", kind="exception"), "raised %r" % ex, case)
+            continue
+        ctx.case(n=1)
+        ctx.count("advance_steps")
+        lps = lp[0].tolist()
+        got = {}
+        ok = True
+        for k in range(len(lps)):
+            if lps[k] == -math.inf:
+                continue
+            s_ = int(src[0, k])
+            p, num = prev[s_]
+            fin = eos >= 0 and len(p) > 0 and p[-1] == eos
+            n = int(y_lens[0, k])
+            path = tuple(y[:n, 0, k].tolist())
+            # advance always grows the path by one token; the module undoes that for finished paths
+            if path[:-1] != p or n != len(p) + 1:
+                ctx.violation(dict(site="beam_search_advance", kind="source"), "slot %d: path %r is not its source %r plus one token" % (k, path, p), case)
+                ok = False
+                break
+            key_ = p if fin else path
+            val = math.exp(lps[k]) * D ** len(key_)
+            if key_ in got:
+                ctx.violation(dict(site="beam_search_advance", kind="duplicate"), "candidate %r selected twice" % (key_,), case)
+                ok = False
+                break
+            got[key_] = val
+        if not ok:
+            continue
+        fin_idx = [k for k in range(len(lps)) if lps[k] != -math.inf]
+        if any(lps[a] < lps[b] - 1e-9 for a, b in zip(fin_idx, fin_idx[1:])) or (fin_idx and fin_idx != list(range(len(fin_idx)))):
+            ctx.violation(dict(site="beam_search_advance", kind="order"), "scores not best first / -inf not last: %r" % (lps,), case)
+            continue
+        for succ in steps[skey]:
+            want = {tuple(e["y"]): e["num"] for e in succ["beam"]}
+            if set(want) == set(got) and all(abs(got[p_] - want[p_]) <= 1e-6 * want[p_] for p_ in want):
+                break
+        else:
+            ctx.violation(dict(site="beam_search_advance", kind="successor"),
+                          "candidates %r are none of the %d legal successor beams of %r" % (got, len(steps[skey]), prev), case)
+
+
 def replay(ctx, case):
     from pydrobert.torch.modules import BeamSearch
 
+    if "step" in case:
+        print("single-step case; re-run the check to reproduce:", case["step"])
+        return
     c = case["call"]
     lm = make_lm(c["V"], c["tvs"], c["max_iters"])
     bs = BeamSearch(lm, c["width"], None if c["eos"] < 0 else c["eos"], c["finish_all"], c["pad_value"])
